@@ -306,6 +306,70 @@ def d_mem_regs(s):
     return {'ins': {'a': a, 'wd': wd, 'we': we, 'rst': rst}}
 
 
+def random_design(seed, nreg_max=4):
+    """seeded random design: registers (random enable/reset/reset value), an optional memory / FSM / stimulus leaf,
+    combinational blocks in between; feedback only through sequential leaves.  Returns a builder f(parent)->{'ins':...}"""
+    import random
+
+    def build(s):
+        rnd = random.Random('design/%s' % seed)
+        w = rnd.choice([1, 2, 3, 4])
+        ins = {'i%d' % k: s.wire('i%d' % k, w) for k in range(rnd.randint(1, 2))}
+        c = s.wire('c', 1)
+        r = s.wire('r', 1)
+        ins['c'] = c
+        ins['r'] = r
+        nreg = rnd.randint(2, nreg_max)
+        qs = [s.wire('q%d' % k, w) for k in range(nreg)]
+        pool = list(ins[n] for n in ins if n not in ('c', 'r')) + qs
+        extra = rnd.choice(['none', 'mem', 'fsm', 'seq', 'none'])
+        if extra == 'mem' and w >= 1:
+            rd = s.wire('rd', w)
+            pool.append(rd)
+        if extra == 'fsm':
+            sy, ac = s.wire('sy', 1), s.wire('ac', 1)
+        if extra == 'seq':
+            sv = s.wire('sv', w)
+            pool.append(sv)
+        for j in range(rnd.randint(1, 4)):
+            t = s.wire('t%d' % j, w)
+            a, b = rnd.choice(pool), rnd.choice(pool)
+            op = rnd.choice(['and', 'or', 'not', 'add', 'mux', 'sub'])
+            if op == 'and':
+                And2(s, 'u%d' % j, a, b, t)
+            elif op == 'or':
+                Or2(s, 'u%d' % j, a, b, t)
+            elif op == 'not':
+                Not(s, 'u%d' % j, a, t)
+            elif op == 'add':
+                Add(s, 'u%d' % j, a, b, t)
+            elif op == 'sub':
+                py4hw.Sub(s, 'u%d' % j, a, b, t)
+            else:
+                Mux2(s, 'u%d' % j, c, a, b, t)
+            pool.append(t)
+        for k, q in enumerate(qs):
+            d = rnd.choice(pool)
+            kind = rnd.choice(['plain', 'en', 'rst', 'both'])
+            Reg(s, 'reg%d' % k, d, q, enable=c if kind in ('en', 'both') else None, reset=r if kind in ('rst', 'both') else None,
+                reset_value=rnd.choice([None, 1]) if kind in ('rst', 'both') else None)
+        if extra == 'mem':
+            a1 = s.wire('a1', 1)
+            py4hw.Bit(s, 'a1', rnd.choice(pool), 0, a1)
+            SynchronousMemory(s, 'mem', a1, a1, c, rd, rnd.choice(pool))
+        if extra == 'fsm':
+            b0, b1 = s.wire('b0', 1), s.wire('b1', 1)
+            py4hw.Bit(s, 'b0', rnd.choice(pool), 0, b0)
+            py4hw.Bit(s, 'b1', rnd.choice(pool), 0, b1)
+            ClockSyncFSM(s, 'fsm', b0, b1, sy, ac)
+            qa = s.wire('qa', 1)
+            Reg(s, 'rfsm', ac, qa)
+        if extra == 'seq':
+            Sequence(s, 'seq', [1, 0, 3 % (1 << w)], sv)
+        return {'ins': ins}
+    return build
+
+
 DESIGNS = {
     'reset-chain': d_reset_chain,
     'regs-mem-reg': d_mem_regs,
